@@ -155,6 +155,15 @@ def validate_spans_with_tlc(ctx, binary, cases, verdicts):
                 timeout=ctx.pick(200, 900))
     ctx.traces_validated += len(trees)
     ctx.extra_cov["span_trees_validated_by_tlc"] = len(trees)
+    if not ctx.quick and not r.violated:
+        # binding self-test: one logged span moved by one byte must be rejected by the predicate
+        bad = copy.deepcopy(trees[:50])
+        bad[len(bad) // 2]["wtree"]["e"] += 1
+        text = "".join(json.dumps(t, separators=(",", ":")) + "\n" for t in bad)
+        r2 = ctx.tlc("ExprSpan", cfg_text=SPAN_CFG, files={"trace.ndjson": text}, expect_violation=True, workers=1, count=False)
+        if not r2.violated:
+            raise X.vlib.Inconclusive("ExprSpan self-test: a corrupted span was accepted")
+        ctx.extra_cov["span_predicate_selftest"] = "corrupted span rejected (%s)" % r2.violated
     return r, trees
 
 
@@ -180,6 +189,9 @@ def run(ctx):
         outcomes[o] = outcomes.get(o, 0) + 1
     ctx.extra_cov["real_outcomes"] = outcomes
     ctx.extra_cov["cases_from_tlc_enumeration"] = n_raw
+    # binding self-test: a corrupted expectation must be rejected by the adapter
+    passing = [send[v["id"]] for v in vs if v.get("ok") and (v.get("obs") or {}).get("outcome") == "ok"]
+    X.binding_selftest(ctx, binary, "shell", passing[::max(1, len(passing) // 40)], lambda t: X.CALL(X.S("zz"), [t]))
     # binding B: the span rule as a TLA+ predicate over logged parse trees
     r, trees = validate_spans_with_tlc(ctx, binary, send, vs)
     if r.violated:
